@@ -121,7 +121,10 @@ func transScenario(sc tScenario, dir string) Scenario {
 		for pi, ups := range sc.Pubs {
 			pi, ups := pi, ups
 			threads = append(threads, func() {
-				for _, u := range ups {
+				for k, u := range ups {
+					if k > 0 {
+						mercure.VSchedOpBoundary()
+					}
 					st := tick()
 					err := t.Dispatch(&mercure.Update{Topics: append([]string{}, u.Topics...), Private: u.Private, Event: mercure.Event{ID: strconv.Itoa(u.ID)}})
 					pubObs[pi] = append(pubObs[pi], tPubObs{ID: u.ID, OK: err == nil, Start: st, End: tick()})
@@ -139,8 +142,10 @@ func transScenario(sc tScenario, dir string) Scenario {
 				obs.Subs[si].End = tick()
 				obs.Subs[si].Err = err != nil
 				if err == nil && sp.Leave {
+					mercure.VSchedOpBoundary()
 					obs.Subs[si].LeftAt = tick()
 					s.Disconnect()
+					mercure.VSchedOpBoundary()
 					_ = t.RemoveSubscriber(s)
 				}
 			})
@@ -202,11 +207,47 @@ func transScenario(sc tScenario, dir string) Scenario {
 			if path != "" {
 				_ = os.Remove(path)
 			}
+			canonTimes(obs)
 			j, _ := json.Marshal(obs)
 			return string(j)
 		}
 		return threads, collect
 	}
+}
+
+// canonTimes replaces the logical time-stamps by their ranks: only their order matters.
+func canonTimes(o *tObs) {
+	var all []int
+	add := func(x int) {
+		if x != 0 {
+			all = append(all, x)
+		}
+	}
+	for _, p := range o.Pubs {
+		add(p.Start)
+		add(p.End)
+	}
+	for _, s := range o.Subs {
+		add(s.Start)
+		add(s.End)
+		add(s.LeftAt)
+	}
+	add(o.CloseStart)
+	add(o.CloseEnd)
+	sort.Ints(all)
+	rank := map[int]int{0: 0}
+	for _, x := range all {
+		if _, ok := rank[x]; !ok {
+			rank[x] = len(rank)
+		}
+	}
+	for i := range o.Pubs {
+		o.Pubs[i].Start, o.Pubs[i].End = rank[o.Pubs[i].Start], rank[o.Pubs[i].End]
+	}
+	for i := range o.Subs {
+		o.Subs[i].Start, o.Subs[i].End, o.Subs[i].LeftAt = rank[o.Subs[i].Start], rank[o.Subs[i].End], rank[o.Subs[i].LeftAt]
+	}
+	o.CloseStart, o.CloseEnd = rank[o.CloseStart], rank[o.CloseEnd]
 }
 
 func genTrans(r *hx.Rng) tScenario {
@@ -273,7 +314,7 @@ func runTrans(a args) error {
 	out.ShardSize = 10
 	dir := hx.WorkDir()
 	defer os.RemoveAll(dir)
-	bound, maxRuns, random := 2, 250, 40
+	bound, maxRuns, random := 2, 200, 80
 	if a.tier == "thorough" {
 		bound, maxRuns, random = 3, 3000, 400
 	}
@@ -285,6 +326,9 @@ func runTrans(a args) error {
 		{Kind: "local", Pubs: [][]tUpd{{{1, []string{"a"}, false}}, {{2, []string{"a"}, false}}}, Subs: []tSubSpec{{Topics: []string{"*"}}}},
 		{Kind: "bolt", Pubs: [][]tUpd{{{1, []string{"a"}, false}}}, Subs: []tSubSpec{{Topics: []string{"a"}}}, Close: true},
 		{Kind: "local", Pubs: [][]tUpd{{{1, []string{"a"}, false}}}, Subs: []tSubSpec{{Topics: []string{"a"}, Leave: true}}, Close: true},
+		// Close while an already disconnected subscriber is still listed, with live ones registered after it
+		{Kind: "local", Subs: []tSubSpec{{Topics: []string{"a"}, Leave: true}, {Topics: []string{"a"}}, {Topics: []string{"*"}}}, Close: true},
+		{Kind: "bolt", Subs: []tSubSpec{{Topics: []string{"a"}, Leave: true}, {Topics: []string{"a"}}, {Topics: []string{"*"}}}, Close: true},
 	}
 	total := 0
 	for i := 0; i < len(corpus)+a.n; i++ {
@@ -294,8 +338,12 @@ func runTrans(a args) error {
 		} else {
 			sc = genTrans(r)
 		}
+		t0 := time.Now()
 		ex := explore(transScenario(sc, dir), bound, maxRuns, random, a.seed+int64(i))
 		total += ex.Schedules
+		if os.Getenv("VERIF_DEBUG") != "" {
+			fmt.Fprintf(os.Stderr, "scenario %d: %d schedules, %d outcomes, %v\n", i, ex.Schedules, len(ex.Outcomes), time.Since(t0))
+		}
 		keys := make([]string, 0, len(ex.Outcomes))
 		for k := range ex.Outcomes {
 			keys = append(keys, k)
@@ -348,7 +396,7 @@ func runTrans(a args) error {
 		}
 		term := fmt.Sprintf("{| tc_persistent := %s; tc_cap := 2%%nat; tc_initial := %s; tc_reqs := %s; tc_mt := %s; tc_obs := %s |}",
 			ce.Bool(sc.Kind == "bolt"), coqInts(initial), ce.List(reqs), ce.List(mt), ce.List(obsTerms))
-		out.Add(term, map[string]any{"scenario": sc, "schedules": ex.Schedules, "exhausted_bound": ex.Exhausted, "preemption_bound": bound, "outcomes": obsDesc},
+		out.Add(term, map[string]any{"scenario": sc, "schedules": ex.Schedules, "exhausted_bound": ex.Exhausted, "op_granularity_runs": ex.CoarseRuns, "op_granularity_exhaustive": ex.CoarseExhausted, "preemption_bound": bound, "outcomes": obsDesc},
 			len(keys) > 1, "transport:"+sc.Kind, fmt.Sprintf("outcomes:%d", min(len(keys), 8)), fmt.Sprintf("close:%v", sc.Close), fmt.Sprintf("restart:%v", sc.Restart))
 	}
 	out.Extra["schedules_explored"] = total
